@@ -160,6 +160,9 @@ func (g *stgen) schema(depth int) *jsonschema.Schema {
 					k := Pick(r, Names)
 					if f.Name == "PatternProperties" {
 						k = Pick(r, Patterns)
+						if g.o.Hostile && r.IntN(8) == 0 {
+							k = Pick(r, []string{"(", "[a-", "a{2,1}", "\\p{Nope}", "(?<x>a)\\k<x>"})
+						}
 					}
 					m[k] = g.child(depth + 1)
 				}
@@ -249,6 +252,9 @@ func (g *stgen) scalarField(s *jsonschema.Schema, f reflect.StructField, fv refl
 	case "Default":
 		if p(8) {
 			fv.Set(reflect.ValueOf(json.RawMessage(Text(Value(r, ValueOpts{MaxDepth: 2, MaxLen: 2}, 0)))))
+		}
+		if g.o.Hostile && p(3) {
+			fv.Set(reflect.ValueOf(json.RawMessage(Pick(r, []string{"{", "", "nul", "[1,", "1e", "\"x", "{\"a\":}", " "}))))
 		}
 	case "Examples", "Enum":
 		if p(8) {
